@@ -366,16 +366,20 @@ static std::string opGate(const std::vector<std::string>& f) {
         if (m.id == "logChecker") continue;   // bookkeeping messages of the whole-program checks, not findings
         int idx = -1;
         bool asInternal = false;
-        for (size_t j = 0; j < fs.size() && idx < 0; ++j) {
-            const GFinding& g = fs[j];
-            if (g.skip) continue;
-            if (m.id != g.id || m.hash != g.hash || m.callStack.empty() == g.hasloc) continue;
-            if (g.hasloc && (m.callStack.back().getfile(false) != g.gfile || m.callStack.back().line != g.line)) continue;
-            if (m.symbolNames() != g.symbolNames) continue;
-            if (g.internal != (m.severity == Severity::internal)) {
-                if (!g.internal && m.severity == Severity::internal) asInternal = true; else continue;
+        // first pass: a finding with the same severity class; second pass: a non-internal finding forwarded as internal
+        for (int pass = 0; pass < 2 && idx < 0; ++pass) {
+            for (size_t j = 0; j < fs.size() && idx < 0; ++j) {
+                const GFinding& g = fs[j];
+                if (g.skip) continue;
+                if (m.id != g.id || m.hash != g.hash || m.callStack.empty() == g.hasloc) continue;
+                if (g.hasloc && (m.callStack.back().getfile(false) != g.gfile || m.callStack.back().line != g.line)) continue;
+                if (m.symbolNames() != g.symbolNames) continue;
+                const bool mi = m.severity == Severity::internal;
+                if (pass == 0 && g.internal != mi) continue;
+                if (pass == 1 && !(mi && !g.internal)) continue;
+                asInternal = pass == 1;
+                idx = static_cast<int>(j);
             }
-            idx = static_cast<int>(j);
         }
         if (idx < 0 && std::getenv("C23_DEBUG")) std::cerr << "unmatched msg id=" << m.id << " sev=" << static_cast<int>(m.severity) << " hash=" << m.hash << " stack=" << m.callStack.size() << " msg=" << m.shortMessage() << std::endl;
         outs += (outs.empty() ? "" : ",") + std::to_string(idx) + ":" + B(asInternal) + ":" + hex(m.remark);
